@@ -24,7 +24,7 @@ pub struct Cfg {
     pub read_only: bool,
     pub port: Option<u16>,
     pub announce: bool,
-    /// 0 none, 1 one node holds 2 peers, 2 all hold 1 (two of them the same address)
+    /// 0 none, 1 one node holds 2 peers, 2 all hold 1 (two of them the same address), 3 all hold one IPv4 and one IPv6 peer
     pub peer_sets: u8,
     /// responders also name the searcher itself
     pub name_searcher: bool,
@@ -81,6 +81,8 @@ pub fn build(cfg: &Cfg) -> (Scenario, Vec<Box<dyn Peer>>) {
         r.values = match cfg.peer_sets {
             1 if i == cfg.ids.len() / 2 => vec![peer_addr(0, cfg.v6), peer_addr(1, cfg.v6)],
             2 => vec![peer_addr(if i < 2 { 7 } else { 10 + i }, cfg.v6)],
+            // answers whose values mix both address families (other implementations send such lists)
+            3 => vec![peer_addr(20 + i, cfg.v6), peer_addr(40 + i, !cfg.v6)],
             _ => vec![],
         };
         if let Some((who, size)) = cfg.exact_reply {
@@ -434,6 +436,21 @@ pub fn run(tier: Tier) -> Report {
             big.push(c);
         }
     }
+    // answers whose values mix IPv4 and IPv6 peers: every address is yielded, whatever the searcher's family
+    let mut mixed: Vec<Cfg> = vec![];
+    for (i, c) in l1.iter().enumerate() {
+        if i % tier.pick(11, 3) == 0 {
+            let mut c = c.clone();
+            c.peer_sets = 3;
+            mixed.push(c);
+        }
+    }
+    for v6 in [false, true] {
+        let mut c = structured(0, 30, seed + 3);
+        c.peer_sets = 3;
+        c.v6 = v6;
+        mixed.push(c);
+    }
     // the application does not read the stream (announce only): dropped at once / after 60 ms / after 500 ms
     let mut dropped: Vec<Cfg> = vec![];
     for n in [30usize, 200] {
@@ -504,7 +521,7 @@ pub fn run(tier: Tier) -> Report {
     }
     let mut distinct = std::collections::HashSet::new();
     let mut runs = 0u64;
-    for (name, set) in [("L1", &l1), ("L3", &l3), ("large", &big), ("stale-bucket", &stale), ("exact-size-answers", &exact), ("dropped-stream", &dropped)] {
+    for (name, set) in [("L1", &l1), ("L3", &l3), ("large", &big), ("stale-bucket", &stale), ("exact-size-answers", &exact), ("dropped-stream", &dropped), ("mixed-family-values", &mixed)] {
         let outs = par_map(set, |_, cfg| {
             let (res, viol, _) = run_cfg(cfg, &[None], &[]);
             let announces = res.wire.iter().filter(|d| d.from_real && krpc::parse(&d.bytes).is_query("announce_peer")).count() as u64;
